@@ -60,6 +60,12 @@ func (e *TagErr) Error() string { return "injected:" + e.Tag }
 
 // ---------------------------------------------------------------------------
 
+// Spin is panicked by a source whose terminal answer (io.EOF or its error) has been ignored spinLimit times: a
+// consumer that would loop forever, reported without a wall clock.
+type Spin struct{ Calls int }
+
+const spinLimit = 1000
+
 // WouldBlock is panicked by a gated source when the Reader asks for bytes that
 // have not been released: "blocks forever" without a wall clock.
 type WouldBlock struct{ Off int }
@@ -129,6 +135,9 @@ func (s *Source) Read(p []byte) (int, error) {
 			panic(WouldBlock{s.Off})
 		}
 		s.TermCalls++
+		if s.TermCalls > spinLimit {
+			panic(Spin{s.TermCalls}) // the consumer keeps asking a source that has answered with its final error 1000 times
+		}
 		return 0, s.termErr()
 	}
 	n := end - s.Off
